@@ -30,5 +30,8 @@ c09_ingresspods_leaks_intermediate_join.diff C09
 c20_typed_monitor_passes_nil_for_foreign.diff C20
 c19_rc_no_template_fallback.diff C19
 c03_stale_retry_after_reset.diff C03
+c01_sync_stops_after_256_entries.diff C01
+c16_monitor_skips_every_101st_event.diff C16
+c09_deployment_filter_capped_at_64_sources.diff C09
 LIST
 } | xargs -P ${SWEEP_JOBS:-4} -L 1 bash -c 'one "$0" "$1" "$2"' | sort
